@@ -449,6 +449,8 @@ class NativeParser(Parser):
             comments=comments,
         )
         self._remove_line_endings_from_block_content(parsed_dict)
+        # A block comment separates words, just like white space does
+        parsed_dict.block_content = re.sub(r"(BLOCKCOMMENT\d{6})", r" \1 ", parsed_dict.block_content)
 
         # Extract string literals
         self._extract_string_literals(parsed_dict)
